@@ -475,6 +475,21 @@ func prepareCall(fr *frame, call *ssa.CallCommon) (fn value, args []value) {
 		if recv.t == nil {
 			panic("method invoked on nil interface")
 		}
+		if recv.t == b2bType {
+			name := call.Method.Name()
+			rv := recv.v
+			fn = hostFn(func(args []value) value {
+				r, ok := b2bMethod(name, rv, args)
+				if !ok {
+					panic(engineLimit{"hash method " + name})
+				}
+				return r
+			})
+			for _, arg := range call.Args {
+				args = append(args, fr.get(arg))
+			}
+			return
+		}
 		if f := lookupMethod(fr.i, recv.t, call.Method); f == nil {
 			// Unreachable in well-typed programs.
 			panic(fmt.Sprintf("method set for dynamic type %v does not contain %s", recv.t, call.Method))
@@ -503,6 +518,8 @@ func call(i *interpreter, caller *frame, callpos token.Pos, fn value, args []val
 		return callSSA(i, caller, callpos, fn.Fn, args, fn.Env)
 	case *ssa.Builtin:
 		return callBuiltin(caller, fn, args)
+	case hostFn:
+		return fn(args)
 	}
 	panic(fmt.Sprintf("cannot call %T", fn))
 }
@@ -820,7 +837,7 @@ func Setup(mainpkg *ssa.Package, mode Mode, sizes types.Sizes) *Machine {
 		delete(needsInit, g)
 	}
 	// globals that are only ever handed to an intercept (their value is never inspected)
-	for _, pn := range [][2]string{{"encoding/base64", "RawURLEncoding"}, {"encoding/base64", "StdEncoding"}, {"encoding/base64", "URLEncoding"}, {"encoding/base64", "RawStdEncoding"}} {
+	for _, pn := range [][2]string{{"golang.org/x/crypto/salsa20/salsa", "Sigma"}, {"encoding/base64", "RawURLEncoding"}, {"encoding/base64", "StdEncoding"}, {"encoding/base64", "URLEncoding"}, {"encoding/base64", "RawStdEncoding"}} {
 		if p := i.prog.ImportedPackage(pn[0]); p != nil {
 			if g := p.Var(pn[1]); g != nil {
 				delete(needsInit, g)
@@ -930,3 +947,5 @@ func init() {
 		return nil
 	}
 }
+
+type hostFn func(args []value) value
